@@ -340,6 +340,62 @@ func c17(c *ev.Ctx) {
 			}
 		}
 	}
+	// sprintf follows Go's fmt for the converted arguments (integer -> int64, float ->
+	// float64, string, boolean -> bool, null -> nil)
+	verbs := []string{"%d", "%s", "%v", "%t", "%f", "%5.2f", "%x", "%q", "%%", "%5d", "%-5s|", "%05d", "%e", "%c", "%+d", "%08.3f", "%T", "%3v", "%U"}
+	ns := c.Pick(3000, 80000)
+	c.ParFor(ns, func(i int) {
+		id := fmt.Sprintf("sprintf/%d", i)
+		if !c.Want(id) {
+			return
+		}
+		r := c.Rng("sprintf", i)
+		nv := 1 + r.Intn(3)
+		var fs strings.Builder
+		var goArgs []interface{}
+		var argText []string
+		for k := 0; k < nv; k++ {
+			fs.WriteString([]string{"", "a=", " ", "é:", "[", "100% "}[r.Intn(6)])
+			vb := verbs[r.Intn(len(verbs))]
+			fs.WriteString(vb)
+			if vb == "%%" {
+				continue
+			}
+			v := gen.RandScalar(r, []model.Kind{model.KInt, model.KFloat, model.KStr, model.KBool, model.KNull}[r.Intn(5)])
+			l, ok := gen.LitOf(v)
+			if !ok {
+				return
+			}
+			argText = append(argText, gast.ExprText(l))
+			switch v.K {
+			case model.KInt:
+				goArgs = append(goArgs, v.I)
+			case model.KFloat:
+				goArgs = append(goArgs, v.F)
+			case model.KStr:
+				goArgs = append(goArgs, v.S)
+			case model.KBool:
+				goArgs = append(goArgs, v.B)
+			default:
+				goArgs = append(goArgs, nil)
+			}
+		}
+		if r.Intn(6) == 0 && len(argText) > 0 { // too few / too many arguments: Go's fmt reports it in the text
+			if r.Intn(2) == 0 {
+				argText, goArgs = argText[:len(argText)-1], goArgs[:len(goArgs)-1]
+			} else {
+				argText, goArgs = append(argText, "7"), append(goArgs, int64(7))
+			}
+		}
+		format := strings.ReplaceAll(fs.String(), "100% ", "100%% ")
+		want := "STRING:" + fmt.Sprintf(format, goArgs...)
+		script := "return sprintf(" + strings.Join(append([]string{gast.EncodeString(format, '"', nil)}, argText...), ", ") + ");"
+		o := run(script, nil, nil, r.Intn(2) == 0)
+		c.Case(script, true)
+		if o.Desc() != want {
+			c.Violation(id, "sprintf", map[string]interface{}{"summary": fmt.Sprintf("%s gives %q %s, Go's fmt gives %q", script, o.Desc(), errText(o.Err), want), "script": script})
+		}
+	})
 	// wrong types => null where documented
 	for ti, tc := range []string{`join("a", ",")`, `join([1], 2)`, `join(null, ",")`, `split(1, ",")`, `split("a", 1)`, `split([1], ",")`, `sort("ba")`, `sort(1)`, `sort([2,1], "x")`, `sort([2,1], 1)`, `reverse({})`, `reverse([1], null)`,
 		`keys([1])`, `keys("a")`, `keys(null)`, `between("1", 0, 2)`, `between(1, "0", 2)`, `between(1, 0, [2])`, `between(null, 0, 2)`, `hour("1")`, `minute(1.5)`, `weekday(null)`, `year([1])`, `day(true)`, `month({})`, `seconds("x")`} {
